@@ -108,7 +108,15 @@ impl<'a, 'b> G<'a, 'b> {
         let mut pool = self.assigned.clone();
         pool.extend(self.inputs.iter().cloned());
         let s = pool[self.t.below(pool.len())].clone();
-        let sv = self.var(&s);
+        let mut sv = self.var(&s);
+        if self.t.chance(70) {
+            // the mention sits in one arm of a conditional expression
+            let c = self.var("n");
+            let o = self.rhs(1);
+            let (a, b) = if self.t.chance(128) { (sv, o) } else { (o, sv) };
+            sv = Expr::Ternary { id: self.ids.next(), c: Box::new(c), a: Box::new(a), b: Box::new(b) };
+            self.forms.push("constraint mentioning the signal inside a conditional expression");
+        }
         let other = self.rhs(1);
         let (l, r) = if self.t.chance(128) {
             (sv, other)
@@ -418,6 +426,14 @@ fn gen_case(t: &mut Tape) -> Case {
         g.decl_signal(&n, SigKind::Input, None, &mut decls);
         g.inputs.push(n);
     }
+    let parallel = !custom && g.t.chance(50);
+    let with_main = g.t.chance(110);
+    if parallel {
+        g.forms.push("template parallel");
+    }
+    if with_main {
+        g.forms.push("file with a main component");
+    }
     let mut nested = 0;
     let body = g.items(&mut decls, None, 0, &mut nested);
     let mut stmts = decls;
@@ -425,7 +441,7 @@ fn gen_case(t: &mut Tape) -> Case {
     let def = Def {
         id: g.ids.next(),
         params_id: g.ids.next(),
-        kind: DefKind::Template { custom, parallel: false },
+        kind: DefKind::Template { custom, parallel },
         name: "Top".into(),
         params: vec!["n".into()],
         body: Stmt::Block { id: g.ids.next(), stmts },
@@ -441,7 +457,8 @@ fn gen_case(t: &mut Tape) -> Case {
         plain_trivia(&printed)
     };
     let r = render(&printed, &trivia);
-    let src = format!("{}{}", r.src, HELPERS);
+    // the main component has to come last in the file
+    let src = format!("{}{}{}", r.src, HELPERS, if with_main { "\ncomponent main = Top(3);\n" } else { "" });
     let blank = match super::c05::comment_mask(src.as_bytes()) {
         Ok(mask) => String::from_utf8_lossy(&src.bytes().enumerate().map(|(i, c)| if mask[i] && c != b'\n' { b' ' } else { c }).collect::<Vec<u8>>()).to_string(),
         Err(_) => src.clone(),
